@@ -29,6 +29,8 @@ _DESCS = ["A description", "desc with \"quotes\" inside", "ends with quote\"", "
           "x" * 69, "y" * 70, "z" * 71, "ends with backslash\\", "b\\", "long " * 15 + "tail\\", "two\nlines\\",
           "First paragraph.\u2028Second paragraph.", "sep\u2029here", "nel\x85inside", "nbsp\xa0x", "bom\ufeffx",
           "word " * 20 + "\u2028tail", "l1\nl2\u2028x\nl3\x85y", "trail\u2028", "\u2029lead", "a\u2028\u2029\x85b", "ab " * 40 + "x", "q" * 120, "cd " * 38 + "efgh ij", "w" * 112 + " " + "v" * 12]
+_ROOT_CASE_VARIANTS = ["query", "QUERY", "qUERY", "mutation", "MUTATION", "Mutation_", "subscription",
+                       "SubScription", "SUBSCRIPTION", "Querys"]
 _FIELD_NAMES = ["id", "name", "value", "items", "owner", "next", "count", "flag", "data", "kind", "fooBar", "snake_case"]
 _ARG_NAMES = ["first", "after", "filter", "where", "orderBy", "flag", "argOne"]
 
@@ -369,6 +371,16 @@ class Gen:
         ob_names = ob_names + [n for n in roots.values()]
         if explicit and r.random() < 0.3 and "Mutation" not in ob_names:
             ob_names.append("Mutation")       # default-named type that is not a root
+        # ordinary types whose names differ from a default root name only by case
+        # (or by a suffix): never roots, with or without a schema definition
+        if r.random() < 0.3:
+            for n in r.sample(_ROOT_CASE_VARIANTS, r.randint(1, 3)):
+                if n not in ob_names:
+                    ob_names.append(n)
+        if r.random() < 0.08:
+            v = r.choice(["subscription", "MUTATION", "query"])
+            if v not in ob_names and v not in if_names:
+                if_names.append(v)    # ... also as an interface name
         un_names = r.sample(["SearchResult", "Media"], r.choice([0, 1, 1, 2]) if size and len(ob_names) > 1 else 0)
         for n in if_names:
             self.interfaces[n] = {"kind": "interface", "name": n}
@@ -841,12 +853,15 @@ def invalidate(spec, rng):
         if s["explicit_schema"]:
             return None
         q = [t for t in s["types"] if t["name"] == "Query"][0]
-        q["name"] = "NotQuery"
+        new = r.choice(["NotQuery", "NotQuery", "query", "QUERY", "Query_", "qUERY"])
+        if any(t["name"] == new for t in s["types"]):
+            return None
+        q["name"] = new
         for t in s["types"]:
             if t["kind"] == "union":
-                t["members"] = ["NotQuery" if m == "Query" else m for m in t["members"]]
+                t["members"] = [new if m == "Query" else m for m in t["members"]]
         text, _ = render(s, r)
-        if "Query" in text.replace("NotQuery", ""):
+        if "Query" in text.replace(new, ""):
             return None
         return label, text, K_SCHEMA
     elif label == "root-not-object":
